@@ -553,7 +553,7 @@ fn gen_scn(rng: &mut Prng, run_seed: u64, i: usize) -> Option<Scn> {
     let spec = gen::draw_spec(rng, &opts)?;
     let count = rng.range(1, 6);
     let mut objects = Vec::new();
-    const BIG_KINDS: &[&str] = &["plain", "sk", "ct", "ctfull", "ctterms", "pk", "poly", "plain1d", "plain2d", "cipher1d", "params", "vec"];
+    const BIG_KINDS: &[&str] = &["plain", "sk", "ct", "ctfull", "ctterms", "pk", "poly", "plain1d", "plain2d", "cipher1d", "params", "vec", "hugevec", "hugeplain"];
     for j in 0..count {
         let kind = if big {
             BIG_KINDS[(i + j * 5 + rng.usize_below(BIG_KINDS.len())) % BIG_KINDS.len()]
